@@ -36,6 +36,12 @@ def witnesses_c07(tier, seed):
             jobs.append('hex %s\n%s' % (which, img.hex()))
             imgs.append(img)
             names.append('hexfile:%s:len=%d' % (which, n))
+            if n == 17:
+                # the file is written at exactly the path given, whatever it looks like (no extension, several dots)
+                for nm in ('firmware', 'fw.v2', 'out.eep.hex.bak'):
+                    jobs.append('hex %s none %s\n%s' % (which, nm, img.hex()))
+                    imgs.append(img)
+                    names.append('hexfile:%s:len=%d:path=%s' % (which, n, nm))
             if n in (17, 4097):
                 # whatever is at the output path already (nothing, an empty file, the head of the same output, the same output): the result
                 # is the new file, whole
@@ -1050,6 +1056,9 @@ def witnesses_c15(tier, seed):
          ['info: outer', 'info: inner', 'info: end']),
         ('messages_from_included_file', 'tree main.asm \n@@ main.asm\n.message "main 1"\n.include "a.inc"\n.message "main 2"\n@@ a.inc\n.warning "inc"\n nop\n',
          ['info: main 1', 'warning: inc', 'info: main 2']),
+        # a message of a macro body appears once per expansion, also when the same macro is called twice in a row (equal text, equal line)
+        ('same_macro_message_twice_in_a_row', 'build\n.macro note\n.message "in macro"\n.endm\n note\n note\n note\n.message "after"\n',
+         ['info: in macro', 'info: in macro', 'info: in macro', 'info: after']),
         ('error_in_macro_body_fails', 'build\n.macro bad\n.error "from macro"\n.endm\n nop\n bad\n', None),
     ]
     base_msg = len(jobs)
